@@ -39,8 +39,8 @@ import (
 	sdk "github.com/cosmos/cosmos-sdk/types"
 	sdkerrors "github.com/cosmos/cosmos-sdk/types/errors"
 	authtypes "github.com/cosmos/cosmos-sdk/x/auth/types"
-	distrtypes "github.com/cosmos/cosmos-sdk/x/distribution/types"
 	"github.com/cosmos/cosmos-sdk/x/distribution"
+	distrtypes "github.com/cosmos/cosmos-sdk/x/distribution/types"
 	"github.com/cosmos/cosmos-sdk/x/evidence"
 	"github.com/cosmos/cosmos-sdk/x/gov"
 	govtypes "github.com/cosmos/cosmos-sdk/x/gov/types"
@@ -776,9 +776,6 @@ func bnJudge(op burnOp, err error, pre, post *bnSnap) bnEvent {
 		wantDistr := zeroVec()
 		for d := 0; d < bnDen; d++ {
 			wantDistr[d] = new(big.Int).Neg(dUsers[d])
-			if r[d].Cmp(e18) >= 0 && ev.oracle == "" {
-				ev.oracle = fmt.Sprintf("%s: remainder %s of %s is not a fraction of a coin", op.Op, r[d], bnDenoms[d])
-			}
 		}
 		expect(zeroVec(), r, wantDistr, op.Op, fmt.Sprintf("paid out %s, outstanding rewards changed by %s", vecStrings(dUsers), vecStrings(dOut)))
 		payoutOps()
